@@ -1448,6 +1448,7 @@ def run(ctx):
     try:      # round 6: the default candidate list is per object; the selection sees the column's VALUES whatever the row labels
         from .. import extra_oracles3
         extra_oracles3.default_candidates_shared(ctx)
+        extra_oracles3.fitted_candidate(ctx)
         extra_oracles3.fit_row_index(ctx, ('selection-sample-size', 'dict'), quick=quick)
     except Exception as ex:
         ctx.obligation('oracle:extra:raised', False, 'correspondence', repr(ex))
